@@ -332,3 +332,60 @@ def near_tie_pair(seed, i):
     if (i // 4) % 2:                    # mirror: the better candidate comes later in scan order
         return pred[::-1].copy(), out[::-1].copy()
     return pred, out
+
+
+def big_volume_pair(seed, i, tier="quick"):
+    """sparse label maps with more voxels than the sizes at which array code typically switches strategy (2^18,
+    2^20, 2^22; 2^24 in the thorough tier), with a size that is not a multiple of any block / worker count, and with
+    instances where block-wise code goes wrong: at the very first and the very last voxels (far corner), across the
+    middle, one instance whose two parts lie at opposite ends (its bounding box is the whole volume), one reference
+    over-segmented into two predictions, one unmatched prediction in the far corner.  Few foreground voxels, so the
+    set-based reference stays cheap.  Returns (pred, ref) as unmatched instance maps, dtype uint8/uint16/uint32."""
+    r = rng(seed, "bigvol", i)
+    exps = [18, 20, 18, 22, 20, 18] if tier == "quick" else [18, 20, 22, 20, 22, 24]
+    t = 2 ** exps[i % len(exps)]
+    ndim = 1 + (i // 2) % 3
+    if ndim == 1:
+        shape = (t + 3 + 2 * int(r.integers(0, 50)),)
+    elif ndim == 2:
+        a = int(round(t ** 0.5)) + 1
+        shape = (a | 1, (a + 2) | 1)
+    else:
+        a = int(round(t ** (1 / 3))) + 1
+        shape = (a | 1, (a + 2) | 1, (a + 4) | 1)
+    dtype = [np.uint8, np.uint16, np.uint32][(i // 3) % 3]
+    refa = np.zeros(shape, dtype=dtype)
+    pred = np.zeros(shape, dtype=dtype)
+    fr, fp = refa.reshape(-1), pred.reshape(-1)
+    n = fr.size
+    w = int(r.integers(4, 12))
+    # head: first voxels
+    fr[0:w] = 1
+    fp[1 : w + 1] = 1
+    # middle, straddling n // 2 (and, flat, a row / slab boundary now and then)
+    m = n // 2 - int(r.integers(0, 3))
+    fr[m : m + w + 3] = 2
+    fp[m + 2 : m + w + 3] = 2
+    # tail: last voxels, the prediction reaches the far corner
+    fr[n - w - 2 : n - 1] = 3
+    fp[n - w : n] = 3
+    # one instance in two parts at opposite ends (bounding box = whole volume)
+    q = n // 7
+    fr[q : q + 5] = 4
+    fr[n - q : n - q + 5] = 4
+    fp[q : q + 5] = 4
+    fp[n - q : n - q + 4] = 4
+    # a reference over-segmented by two predictions
+    u = n // 3
+    fr[u : u + 12] = 5
+    fp[u : u + 7] = 5
+    fp[u + 7 : u + 12 + (8 if i % 2 else 0)] = 6  # the second fragment may reach beyond the reference
+    # an unmatched prediction next to the tail instance, and an unmatched reference
+    fp[n - w - 9 : n - w - 5] = 7
+    fr[n // 5 : n // 5 + 3] = 6
+    if i % 4 == 1:
+        # prediction labels permuted and shifted (fresh labels needed for the unmatched ones)
+        lut = np.arange(8, dtype=dtype)
+        lut[1:] = np.array([3, 1, 2, 5, 4, 7, 6], dtype=dtype)
+        pred = lut[pred]
+    return pred, refa
